@@ -50,12 +50,16 @@ static Sc vatan(Sc a) { return __CPROVER_uninterpreted_atan(a); }
 static Sc verf(Sc a) { return __CPROVER_uninterpreted_erf(a); }
 static Sc vabs(Sc a) { Sc z = 0; return a < z ? z - a : a; }
 
-/* pow: exact product / reciprocal for integer exponents in [-8,8]; UF otherwise */
+/* pow: exact product / reciprocal for integer exponents in [-8,24]; UF otherwise */
 static Sc vpowi(Sc b, int n)
 {
   Sc r = 1;
   if (n >= 0) { if (n >= 1) r = r * b; if (n >= 2) r = r * b; if (n >= 3) r = r * b; if (n >= 4) r = r * b;
-                if (n >= 5) r = r * b; if (n >= 6) r = r * b; if (n >= 7) r = r * b; if (n >= 8) r = r * b; return r; }
+                if (n >= 5) r = r * b; if (n >= 6) r = r * b; if (n >= 7) r = r * b; if (n >= 8) r = r * b;
+                if (n >= 9) r = r * b; if (n >= 10) r = r * b; if (n >= 11) r = r * b; if (n >= 12) r = r * b;
+                if (n >= 13) r = r * b; if (n >= 14) r = r * b; if (n >= 15) r = r * b; if (n >= 16) r = r * b;
+                if (n >= 17) r = r * b; if (n >= 18) r = r * b; if (n >= 19) r = r * b; if (n >= 20) r = r * b;
+                if (n >= 21) r = r * b; if (n >= 22) r = r * b; if (n >= 23) r = r * b; if (n >= 24) r = r * b; return r; }
   Sc i = vinv(b);
   if (n <= -1) r = r * i; if (n <= -2) r = r * i; if (n <= -3) r = r * i; if (n <= -4) r = r * i;
   if (n <= -5) r = r * i; if (n <= -6) r = r * i; if (n <= -7) r = r * i; if (n <= -8) r = r * i; return r;
@@ -65,15 +69,20 @@ static Sc vpow(Sc b, Sc e)
   if (e == 0) return vpowi(b, 0);  if (e == 1) return vpowi(b, 1);  if (e == 2) return vpowi(b, 2);
   if (e == 3) return vpowi(b, 3);  if (e == 4) return vpowi(b, 4);  if (e == 5) return vpowi(b, 5);
   if (e == 6) return vpowi(b, 6);  if (e == 7) return vpowi(b, 7);  if (e == 8) return vpowi(b, 8);
+  if (e == 9) return vpowi(b, 9);  if (e == 10) return vpowi(b, 10); if (e == 11) return vpowi(b, 11);
+  if (e == 12) return vpowi(b, 12); if (e == 13) return vpowi(b, 13); if (e == 14) return vpowi(b, 14);
+  if (e == 15) return vpowi(b, 15); if (e == 16) return vpowi(b, 16); if (e == 17) return vpowi(b, 17);
+  if (e == 18) return vpowi(b, 18); if (e == 19) return vpowi(b, 19); if (e == 20) return vpowi(b, 20);
+  if (e == 21) return vpowi(b, 21); if (e == 22) return vpowi(b, 22); if (e == 23) return vpowi(b, 23); if (e == 24) return vpowi(b, 24);
   if (e == -1) return vpowi(b, -1); if (e == -2) return vpowi(b, -2); if (e == -3) return vpowi(b, -3);
   if (e == -4) return vpowi(b, -4); if (e == -5) return vpowi(b, -5); if (e == -6) return vpowi(b, -6);
   if (e == -7) return vpowi(b, -7); if (e == -8) return vpowi(b, -8);
   return __CPROVER_uninterpreted_pow(b, e);
 }
 
-Sc __CPROVER_uninterpreted_eps(void);
-static Sc VF_EPS(void) { Sc e = __CPROVER_uninterpreted_eps(); __CPROVER_assume(e > 0); return e; }   /* numeric_limits<Scalar>::epsilon(): some positive constant */
-static Sc VF_NAN(void) { ghost_nan = 1; return LITf(0, 1); }                                       /* quiet_NaN(): ghost flag + placeholder value */
+Sc __CPROVER_uninterpreted_eps(int);
+static Sc VF_EPS(void) { Sc e = __CPROVER_uninterpreted_eps(0); __CPROVER_assume(e > 0); return e; }   /* numeric_limits<Scalar>::epsilon(): some positive constant */
+static Sc VF_NAN(void) { ghost_nan = 1; return LITf(0, 1); }                                        /* quiet_NaN(): ghost flag + placeholder value */
 /* static members of manufactured_solution<Scalar>: both are acos(Scalar(-1)) (masa_class.cpp:80,83) */
 Sc pi, PI;
 #define VF_PI_OK (pi == PI)
